@@ -2,9 +2,15 @@
     Only pinned statements, theorems closed by [exact], examples, [Print Assumptions].
     Model: Model/Fs.v, Model/Verify.v (the tree with both repairs applied); proofs:
     Proofs/FsProofs.v, Proofs/VerifyProofs.v; instances: Proofs/VerifyExamples.v.
-    H = SHA-1, MD5 and the read schedule sch are universally quantified. *)
+    H = SHA-1, MD5 and the read schedule sch are universally quantified; so are hd / un, the url crate's
+    Host::parse and Url::parse, which only the command's typed loader consults.
+    X4: the command ([verify_cmd]) loads through [load_typed] = the projection of [Summary.from_input], the one
+    model of [Metainfo::from_input]; [load] is the projection that reads the four info fields only. The section
+    "one typed loader" below relates the two exactly. *)
 From Coq Require Import NArith ZArith List Bool.
-From Imdl Require Import Base.Chunks Model.Bencode Model.Fs Model.Verify Proofs.FsProofs Proofs.VerifyProofs Proofs.VerifyExamples.
+From Imdl Require Import Base.Chunks Model.Bencode Model.BencodeWide Model.Fs Model.Verify Proofs.FsProofs Proofs.LoaderProofs
+  Proofs.VerifyProofs Proofs.VerifyExamples Proofs.LoaderExamples.
+From Imdl Require Model.Summary.
 Import ListNotations.
 Local Open Scope N_scope.
 
@@ -29,34 +35,34 @@ Theorem c03_verify_iff_spec : forall H MD5 sch p, 0 < p -> forall fs root t,
             (status_good s = true <-> spec_good H MD5 p fs root t).
 Proof. exact verify_iff_spec. Qed.
 
-(** the command exits 0 exactly when the arguments are accepted, the loader accepts the torrent,
+(** the command exits 0 exactly when the arguments are accepted, the typed loader accepts the torrent,
     the root rule yields a path, the piece length is in 1..2^32-1 and the statement holds *)
-Check verify_cmd_success_iff : forall H MD5 sch fs cwd content base input tb,
-  verify_cmd H MD5 sch fs cwd content base input tb = Some Success <->
+Check verify_cmd_success_iff : forall H MD5 sch hd un fs cwd content base input tb,
+  verify_cmd H MD5 sch hd un fs cwd content base input tb = Some Success <->
   args_ok content base input = true /\
-  exists t root, load tb = Some t /\
+  exists t root, load_typed hd un tb = Some t /\
                  env_resolve cwd (content_root content base input (tname t)) = Some root /\
                  0 < tplen t < 2 ^ 32 /\
                  spec_good H MD5 (tplen t) fs root t.
-Theorem c03_exit_zero_iff : forall H MD5 sch fs cwd content base input tb,
-  verify_cmd H MD5 sch fs cwd content base input tb = Some Success <->
+Theorem c03_exit_zero_iff : forall H MD5 sch hd un fs cwd content base input tb,
+  verify_cmd H MD5 sch hd un fs cwd content base input tb = Some Success <->
   args_ok content base input = true /\
-  exists t root, load tb = Some t /\
+  exists t root, load_typed hd un tb = Some t /\
                  env_resolve cwd (content_root content base input (tname t)) = Some root /\
                  0 < tplen t < 2 ^ 32 /\
                  spec_good H MD5 (tplen t) fs root t.
 Proof. exact verify_cmd_success_iff. Qed.
 
 (** the loop's fuel always suffices *)
-Theorem c03_always_an_outcome : forall H MD5 sch fs cwd content base input tb,
-  verify_cmd H MD5 sch fs cwd content base input tb <> None.
+Theorem c03_always_an_outcome : forall H MD5 sch hd un fs cwd content base input tb,
+  verify_cmd H MD5 sch hd un fs cwd content base input tb <> None.
 Proof. exact verify_cmd_total. Qed.
 
 (** never success when the bytes cannot have been hashed (piece length zero) *)
-Check never_good_unhashed : forall H MD5 sch fs cwd content base input tb t,
-  load tb = Some t -> tplen t = 0 -> verify_cmd H MD5 sch fs cwd content base input tb <> Some Success.
-Theorem c03_never_good_unhashed : forall H MD5 sch fs cwd content base input tb t,
-  load tb = Some t -> tplen t = 0 -> verify_cmd H MD5 sch fs cwd content base input tb <> Some Success.
+Check never_good_unhashed : forall H MD5 sch hd un fs cwd content base input tb t,
+  load_typed hd un tb = Some t -> tplen t = 0 -> verify_cmd H MD5 sch hd un fs cwd content base input tb <> Some Success.
+Theorem c03_never_good_unhashed : forall H MD5 sch hd un fs cwd content base input tb t,
+  load_typed hd un tb = Some t -> tplen t = 0 -> verify_cmd H MD5 sch hd un fs cwd content base input tb <> Some Success.
 Proof. exact never_good_unhashed. Qed.
 
 Theorem c03_verifier_refuses_zero : forall H MD5 sch fs root t,
@@ -72,6 +78,89 @@ Theorem c03_content_root_rule : forall base input name,
   content_root None None TStdin name = name.
 Proof. exact content_root_rule. Qed.
 
+
+(** ** one typed loader (X4) *)
+(** what [Metainfo::from_input] (as modelled for `torrent show`, C07) accepts, the verifier's projection accepts,
+    with the projected result; the two models were written independently and agree field by field *)
+Check loaders_agree : forall hd un v m, Summary.from_value hd un v = Some m -> load_value v = Some (project m).
+Theorem c03_loaders_agree : forall hd un v m, Summary.from_value hd un v = Some m -> load_value v = Some (project m).
+Proof. exact loaders_agree. Qed.
+
+Check typed_rejects_more : forall hd un tb t, load_typed hd un tb = Some t -> load tb = Some t.
+Theorem c03_typed_rejects_more : forall hd un tb t, load_typed hd un tb = Some t -> load tb = Some t.
+Proof. exact typed_rejects_more. Qed.
+
+(** the difference, exactly: the named checks of [extras] (Model/Verify.v) and the 64-bit content size *)
+Check typed_exact : forall hd un tb t,
+  load_typed hd un tb = Some t <-> load tb = Some t /\ extras hd un tb = true /\ size_fits t = true.
+Theorem c03_typed_exact : forall hd un tb t,
+  load_typed hd un tb = Some t <-> load tb = Some t /\ extras hd un tb = true /\ size_fits t = true.
+Proof. exact typed_exact. Qed.
+
+Theorem c03_typed_exact_value : forall hd un v t, load_value v = Some t ->
+  ((exists m, Summary.from_value hd un v = Some m /\ project m = t) <-> extras_value hd un v = true /\ size_fits t = true).
+Proof. exact typed_exact_value. Qed.
+
+(** the strict reader (used where the infohash is computed: show, link) is the serde reader plus i64
+    everywhere; `show` therefore sees exactly what [from_input] sees *)
+Theorem c03_strict_reader_is_wide_plus_i64 : forall fuel bs v rest,
+  decode fuel bs = Some (v, rest) -> wdecode fuel bs = Some (v, rest) /\ all_i64 v = true.
+Proof. exact (fun fuel => proj1 (decode_wdecode fuel)). Qed.
+Theorem c03_show_loads_through_from_input : forall hd un input v rest,
+  decode (2 * length input + 2) input = Some (v, rest) ->
+  Summary.from_input hd un input = if depth v <=? max_depth then Summary.typed_of_value hd un v else None.
+Proof. exact show_loads_through_from_input. Qed.
+
+(** the independently written field readers are the same functions *)
+Theorem c03_utf8_models_agree : forall s, utf8_ok s = Summary.utf8_valid s.
+Proof. exact utf8_eq. Qed.
+Theorem c03_component_models_agree : forall c, screen_comp c = Summary.normal_component c.
+Proof. exact screen_normal. Qed.
+Theorem c03_md5_models_agree : forall v, load_md5 v = option_map md5_bytes (Summary.as_md5 v).
+Proof. exact load_md5_eq. Qed.
+Theorem c03_file_entry_models_agree : forall v, all_i64 v = true ->
+  load_file v = option_map project_file (Summary.as_file v).
+Proof. exact load_file_eq. Qed.
+Theorem c03_mode_models_agree : forall i,
+  (forall v, Summary.lookup Summary.k_length i = Some v -> all_i64 v = true) ->
+  (forall v, Summary.lookup Summary.k_files i = Some v -> all_i64 v = true) ->
+  load_mode i = option_map project_mode (Summary.as_mode i).
+Proof. exact load_mode_eq. Qed.
+
+(** one lemma per class of torrent that [load] accepts and the command refuses; an instance of each below *)
+Theorem c03_refused_deep : forall hd un d i, dlookup K_info d = Some (Dict i) -> x_depth (Dict d) = false -> Summary.from_value hd un (Dict d) = None.
+Proof. exact refused_deep. Qed.
+Theorem c03_refused_skipped_integer : forall hd un d i, dlookup K_info d = Some (Dict i) -> x_skipped_i64 (Dict d) = false -> Summary.from_value hd un (Dict d) = None.
+Proof. exact refused_skipped_integer. Qed.
+Theorem c03_refused_top_key_not_utf8 : forall hd un d i, dlookup K_info d = Some (Dict i) -> x_top_keys_utf8 d = false -> Summary.from_value hd un (Dict d) = None.
+Proof. exact refused_top_key_not_utf8. Qed.
+Theorem c03_refused_announce : forall hd un d i, dlookup K_info d = Some (Dict i) -> x_announce d = false -> Summary.from_value hd un (Dict d) = None.
+Proof. exact refused_announce. Qed.
+Theorem c03_refused_announce_list : forall hd un d i, dlookup K_info d = Some (Dict i) -> x_announce_list d = false -> Summary.from_value hd un (Dict d) = None.
+Proof. exact refused_announce_list. Qed.
+Theorem c03_refused_comment : forall hd un d i, dlookup K_info d = Some (Dict i) -> x_comment d = false -> Summary.from_value hd un (Dict d) = None.
+Proof. exact refused_comment. Qed.
+Theorem c03_refused_created_by : forall hd un d i, dlookup K_info d = Some (Dict i) -> x_created_by d = false -> Summary.from_value hd un (Dict d) = None.
+Proof. exact refused_created_by. Qed.
+Theorem c03_refused_creation_date : forall hd un d i, dlookup K_info d = Some (Dict i) -> x_creation_date d = false -> Summary.from_value hd un (Dict d) = None.
+Proof. exact refused_creation_date. Qed.
+Theorem c03_refused_encoding : forall hd un d i, dlookup K_info d = Some (Dict i) -> x_encoding d = false -> Summary.from_value hd un (Dict d) = None.
+Proof. exact refused_encoding. Qed.
+Theorem c03_refused_nodes : forall hd un d i, dlookup K_info d = Some (Dict i) -> x_nodes hd d = false -> Summary.from_value hd un (Dict d) = None.
+Proof. exact refused_nodes. Qed.
+Theorem c03_refused_info_key_not_utf8 : forall hd un d i, dlookup K_info d = Some (Dict i) -> x_info_keys_utf8 i = false -> Summary.from_value hd un (Dict d) = None.
+Proof. exact refused_info_key_not_utf8. Qed.
+Theorem c03_refused_private : forall hd un d i, dlookup K_info d = Some (Dict i) -> x_private i = false -> Summary.from_value hd un (Dict d) = None.
+Proof. exact refused_private. Qed.
+Theorem c03_refused_piece_length_u64 : forall hd un d i, dlookup K_info d = Some (Dict i) -> x_piece_length_u64 i = false -> Summary.from_value hd un (Dict d) = None.
+Proof. exact refused_piece_length_u64. Qed.
+Theorem c03_refused_source : forall hd un d i, dlookup K_info d = Some (Dict i) -> x_source i = false -> Summary.from_value hd un (Dict d) = None.
+Proof. exact refused_source. Qed.
+Theorem c03_refused_update_url : forall hd un d i, dlookup K_info d = Some (Dict i) -> x_update_url un i = false -> Summary.from_value hd un (Dict d) = None.
+Proof. exact refused_update_url. Qed.
+Theorem c03_refused_content_size : forall hd un v t, load_value v = Some t -> size_fits t = false -> Summary.from_value hd un v = None.
+Proof. exact refused_content_size. Qed.
+
 (** instances: the statements are not vacuous *)
 Example c03_ex_success : run (ex_single 2 (xhash [104; 105] ++ xhash [33])) = Some Success.
 Proof. exact ex_single_success. Qed.
@@ -80,7 +169,7 @@ Proof. exact ex_single_missing_hash_fails. Qed.
 Example c03_ex_surplus_hash : run (ex_single 2 (xhash [104; 105] ++ xhash [33] ++ xhash [33])) = Some Failed.
 Proof. exact ex_single_surplus_hash_fails. Qed.
 Example c03_ex_zero_piece_length :
-  exists t, load (ex_single 0 []) = Some t /\ tplen t = 0 /\ run (ex_single 0 []) = Some Rejected.
+  exists t, load_typed xid xid (ex_single 0 []) = Some t /\ tplen t = 0 /\ run (ex_single 0 []) = Some Rejected.
 Proof. exact ex_zero_piece_length_rejected. Qed.
 Example c03_ex_roots :
   let name := [114] in
@@ -89,6 +178,113 @@ Example c03_ex_roots :
   env_resolve cwd_w (content_root None None (TPath [115; SEP; 116]) name) = Some (cwd_w ++ [SEP; 115; SEP; 114]) /\
   env_resolve cwd_w (content_root None None TStdin name) = Some (cwd_w ++ [SEP; 114]).
 Proof. exact ex_roots. Qed.
+
+(** instances for the loader section: a torrent of each refused class, and the accepted neighbours *)
+Example c03_ex_plain_accepted :
+  accepted (xtop [] []) = true /\ typed (xtop [] []) = true.
+Proof. exact ex_plain_accepted. Qed.
+Example c03_ex_full_accepted :
+  let v := xtop [(Summary.k_announce, Str [104]); (Summary.k_announce_list, Lst [Lst [Str [104]]]); (Summary.k_comment, Str []);
+                 (Summary.k_created_by, Str [105]); (Summary.k_creation_date, Int (2 ^ 64 - 1)); (Summary.k_encoding, Str [85]);
+                 (Summary.k_nodes, Lst [Lst [Str [104]; Int 65535]]); ([122], Int (2 ^ 63 - 1))]
+                [(Summary.k_private, Int 1); (Summary.k_source, Str [115]); (Summary.k_update_url, Str [117]); ([122], Int (- 2 ^ 63))] in
+  accepted v = true /\ typed v = true /\
+  option_map project (Summary.from_value xid xid v) = load_value v.
+Proof. exact ex_full_accepted. Qed.
+Example c03_ex_refused_deep :
+  let v := xtop [([122], nest 2047)] [] in
+  accepted v = true /\ x_depth v = false /\ typed v = false /\ typed (xtop [([122], nest 2046)] []) = true.
+Proof. exact ex_refused_deep. Qed.
+Example c03_ex_refused_skipped_integer :
+  accepted (xtop [([122], Int (2 ^ 63))] []) = true /\ typed (xtop [([122], Int (2 ^ 63))] []) = false /\
+  accepted (xtop [] [([122], Lst [Int (- 2 ^ 63 - 1)])]) = true /\ typed (xtop [] [([122], Lst [Int (- 2 ^ 63 - 1)])]) = false /\
+  x_skipped_i64 (xtop [([122], Int (2 ^ 63))] []) = false.
+Proof. exact ex_refused_skipped_integer. Qed.
+Example c03_ex_refused_length_i64 :
+  let v := Dict [(K_info, Dict [(K_length, Int (2 ^ 63)); (K_name, Str [102]); (K_piece_length, Int 2); (K_pieces, Str [])])] in
+  accepted v = true /\ x_skipped_i64 v = false /\ typed v = false.
+Proof. exact ex_refused_length_i64. Qed.
+Example c03_ex_refused_top_key_not_utf8 :
+  accepted (xtop [([255], Int 1)] []) = true /\ typed (xtop [([255], Int 1)] []) = false.
+Proof. exact ex_refused_top_key_not_utf8. Qed.
+Example c03_ex_refused_info_key_not_utf8 :
+  accepted (xtop [] [([255], Int 1)]) = true /\ typed (xtop [] [([255], Int 1)]) = false.
+Proof. exact ex_refused_info_key_not_utf8. Qed.
+Example c03_ex_refused_announce :
+  accepted (xtop [(Summary.k_announce, Int 5)] []) = true /\ typed (xtop [(Summary.k_announce, Int 5)] []) = false /\
+  typed (xtop [(Summary.k_announce, Str [255])] []) = false.
+Proof. exact ex_refused_announce. Qed.
+Example c03_ex_refused_announce_list :
+  accepted (xtop [(Summary.k_announce_list, Lst [Str [104]])] []) = true /\
+  typed (xtop [(Summary.k_announce_list, Lst [Str [104]])] []) = false /\
+  typed (xtop [(Summary.k_announce_list, Lst [Lst [Int 1]])] []) = false /\
+  typed (xtop [(Summary.k_announce_list, Lst [Lst []])] []) = true.
+Proof. exact ex_refused_announce_list. Qed.
+Example c03_ex_refused_comment :
+  accepted (xtop [(Summary.k_comment, Lst [])] []) = true /\ typed (xtop [(Summary.k_comment, Lst [])] []) = false.
+Proof. exact ex_refused_comment. Qed.
+Example c03_ex_refused_created_by :
+  accepted (xtop [(Summary.k_created_by, Int 0)] []) = true /\ typed (xtop [(Summary.k_created_by, Int 0)] []) = false.
+Proof. exact ex_refused_created_by. Qed.
+Example c03_ex_refused_creation_date :
+  accepted (xtop [(Summary.k_creation_date, Int (-1))] []) = true /\
+  typed (xtop [(Summary.k_creation_date, Int (-1))] []) = false /\
+  typed (xtop [(Summary.k_creation_date, Int (2 ^ 64))] []) = false /\
+  typed (xtop [(Summary.k_creation_date, Str [49])] []) = false /\
+  typed (xtop [(Summary.k_creation_date, Int (2 ^ 63))] []) = true.
+Proof. exact ex_refused_creation_date. Qed.
+Example c03_ex_refused_encoding :
+  accepted (xtop [(Summary.k_encoding, Dict [])] []) = true /\ typed (xtop [(Summary.k_encoding, Dict [])] []) = false.
+Proof. exact ex_refused_encoding. Qed.
+Example c03_ex_refused_nodes :
+  accepted (xtop [(Summary.k_nodes, Lst [Lst [Str [104]; Int 65536]])] []) = true /\
+  typed (xtop [(Summary.k_nodes, Lst [Lst [Str [104]; Int 65536]])] []) = false /\
+  typed (xtop [(Summary.k_nodes, Lst [Lst [Str [104]]])] []) = false /\
+  typed (xtop [(Summary.k_nodes, Lst [Lst [Str [104]; Int 1; Int 1]])] []) = false /\
+  typed (xtop [(Summary.k_nodes, Lst [Str [104]])] []) = false /\
+  (* a host the url crate refuses *)
+  Summary.from_value xnone xid (xtop [(Summary.k_nodes, Lst [Lst [Str [104]; Int 1]])] []) = None /\
+  typed (xtop [(Summary.k_nodes, Lst [Lst [Str [104]; Int 1]])] []) = true.
+Proof. exact ex_refused_nodes. Qed.
+Example c03_ex_refused_private :
+  accepted (xtop [] [(Summary.k_private, Int 2)]) = true /\ typed (xtop [] [(Summary.k_private, Int 2)]) = false /\
+  typed (xtop [] [(Summary.k_private, Int (-1))]) = false /\ typed (xtop [] [(Summary.k_private, Str [49])]) = false /\
+  typed (xtop [] [(Summary.k_private, Int 0)]) = true.
+Proof. exact ex_refused_private. Qed.
+Example c03_ex_refused_source :
+  accepted (xtop [] [(Summary.k_source, Int 1)]) = true /\ typed (xtop [] [(Summary.k_source, Int 1)]) = false.
+Proof. exact ex_refused_source. Qed.
+Example c03_ex_refused_update_url :
+  accepted (xtop [] [(Summary.k_update_url, Int 1)]) = true /\ typed (xtop [] [(Summary.k_update_url, Int 1)]) = false /\
+  (* a text the url crate refuses *)
+  Summary.from_value xid xnone (xtop [] [(Summary.k_update_url, Str [120])]) = None /\
+  typed (xtop [] [(Summary.k_update_url, Str [120])]) = true.
+Proof. exact ex_refused_update_url. Qed.
+Example c03_ex_refused_piece_length_u64 :
+  let v := Dict [(K_info, Dict [(K_length, Int 3); (K_name, Str [102]); (K_piece_length, Int (2 ^ 64)); (K_pieces, Str [])])] in
+  accepted v = true /\ x_piece_length_u64 (match v with Dict [(_, Dict i)] => i | _ => [] end) = false /\ typed v = false.
+Proof. exact ex_refused_piece_length_u64. Qed.
+Example c03_ex_refused_content_size :
+  accepted (xmulti [9223372036854775807; 9223372036854775807; 2]%Z) = true /\
+  typed (xmulti [9223372036854775807; 9223372036854775807; 2]%Z) = false /\
+  typed (xmulti [9223372036854775807; 9223372036854775807; 1]%Z) = true /\
+  option_map size_fits (load_value (xmulti [9223372036854775807; 9223372036854775807; 2]%Z)) = Some false.
+Proof. exact ex_refused_content_size. Qed.
+Example c03_ex_file_entry_as_sequence :
+  let v := Dict [(K_info, Dict [(K_files, Lst [Lst [Int 3; Lst [Str [102]]];
+                                               Lst [Int 0; Lst [Str [103]]; Str (repeat 48 32)]]);
+                                (K_name, Str [114]); (K_piece_length, Int 4); (K_pieces, Str [])])] in
+  option_map project (Summary.from_value xid xid v) = load_value v /\ accepted v = true /\
+  typed (Dict [(K_info, Dict [(K_files, Lst [Lst [Int 3]]); (K_name, Str [114]); (K_piece_length, Int 4); (K_pieces, Str [])])]) = false /\
+  typed (Dict [(K_info, Dict [(K_files, Lst [Lst [Int 3; Lst [Str [102]]; Str (repeat 48 32); Int 1]]); (K_name, Str [114]);
+                              (K_piece_length, Int 4); (K_pieces, Str [])])]) = false.
+Proof. exact ex_file_entry_as_sequence. Qed.
+Example c03_ex_wide_integer_bytes :
+  let tb := encode (Dict [(Summary.k_creation_date, Int (2 ^ 63)); (K_info, Dict (xinfo []))]) in
+  is_some (load_typed xid xid tb) = true /\ is_some (load tb) = true /\
+  decode (2 * length tb + 2) tb = None /\
+  run tb = Some Success.
+Proof. exact ex_wide_integer_bytes. Qed.
 
 Print Assumptions c03_hashing_is_chunks_of_concat.
 Print Assumptions c03_verify_iff_spec.
@@ -102,3 +298,51 @@ Print Assumptions c03_ex_missing_hash.
 Print Assumptions c03_ex_surplus_hash.
 Print Assumptions c03_ex_zero_piece_length.
 Print Assumptions c03_ex_roots.
+Print Assumptions c03_loaders_agree.
+Print Assumptions c03_typed_rejects_more.
+Print Assumptions c03_typed_exact.
+Print Assumptions c03_typed_exact_value.
+Print Assumptions c03_strict_reader_is_wide_plus_i64.
+Print Assumptions c03_show_loads_through_from_input.
+Print Assumptions c03_utf8_models_agree.
+Print Assumptions c03_component_models_agree.
+Print Assumptions c03_md5_models_agree.
+Print Assumptions c03_file_entry_models_agree.
+Print Assumptions c03_mode_models_agree.
+Print Assumptions c03_refused_deep.
+Print Assumptions c03_refused_skipped_integer.
+Print Assumptions c03_refused_top_key_not_utf8.
+Print Assumptions c03_refused_announce.
+Print Assumptions c03_refused_announce_list.
+Print Assumptions c03_refused_comment.
+Print Assumptions c03_refused_created_by.
+Print Assumptions c03_refused_creation_date.
+Print Assumptions c03_refused_encoding.
+Print Assumptions c03_refused_nodes.
+Print Assumptions c03_refused_info_key_not_utf8.
+Print Assumptions c03_refused_private.
+Print Assumptions c03_refused_piece_length_u64.
+Print Assumptions c03_refused_source.
+Print Assumptions c03_refused_update_url.
+Print Assumptions c03_refused_content_size.
+Print Assumptions c03_ex_plain_accepted.
+Print Assumptions c03_ex_full_accepted.
+Print Assumptions c03_ex_refused_deep.
+Print Assumptions c03_ex_refused_skipped_integer.
+Print Assumptions c03_ex_refused_length_i64.
+Print Assumptions c03_ex_refused_top_key_not_utf8.
+Print Assumptions c03_ex_refused_info_key_not_utf8.
+Print Assumptions c03_ex_refused_announce.
+Print Assumptions c03_ex_refused_announce_list.
+Print Assumptions c03_ex_refused_comment.
+Print Assumptions c03_ex_refused_created_by.
+Print Assumptions c03_ex_refused_creation_date.
+Print Assumptions c03_ex_refused_encoding.
+Print Assumptions c03_ex_refused_nodes.
+Print Assumptions c03_ex_refused_private.
+Print Assumptions c03_ex_refused_source.
+Print Assumptions c03_ex_refused_update_url.
+Print Assumptions c03_ex_refused_piece_length_u64.
+Print Assumptions c03_ex_refused_content_size.
+Print Assumptions c03_ex_file_entry_as_sequence.
+Print Assumptions c03_ex_wide_integer_bytes.
